@@ -110,6 +110,9 @@ func runProperty(opts *Options, p *PropInfo) (code int) {
 			if f := seedfix3[p.ID]; f != nil {
 				f(ctx)
 			}
+			if f := seedfix4[p.ID]; f != nil {
+				f(ctx)
+			}
 		}
 		if opts.Tier == "thorough" {
 			rep.config = "selftest"
